@@ -1939,7 +1939,8 @@ public:
                 typename deferred_events_queue_t::value_type const& d1,
                 typename deferred_events_queue_t::value_type const& d2)
             {
-                return d1.second > d2.second;
+                // sequence numbers wrap around (char): compare by wrapped difference
+                return static_cast<signed char>(d1.second - d2.second) > 0;
             }
         };
         struct set_sequence
